@@ -108,8 +108,7 @@ def worker(ctx):
                     odo = os.path.join(top, "opt")
                     sut_compiler.compile_schema(root, src, ["c", "go"], outdir=odo, optimize=True, paths=paths)
             except Exception as e:
-                res.count("skipped_compile_error")
-                res.observe("compile_error_classes", f"{type(e).__name__}: {str(e)[:80]}")
+                harness.compile_failed(res, e, wit)
                 continue
             res.case(gen.is_nontrivial(gen.schema_signature(root)), wit["schema"])
             res.sample({"schema": wit["schema"]}, 1)
